@@ -477,8 +477,19 @@ class ExpRun:
         before = chain_of(inc.s)              # (also fills any cache get_samples() may keep)
         if before.size and ctx.sched.random() < 0.5:
             n = before.shape[1]               # a run of the same length as the one recorded before the reset
-        pi = np.random.get_state()
         core.reset_volatile_globals()
+        if self.sc["kind"] in ("MH", "CWMH", "ULA", "MALA", "PCN") and inc.s._is_initialized \
+                and ctx.sched.random() < (0.8 if isinstance(self.sc.get("knobs", {}).get("scale"), list) else 0.4):
+            # the user re-assigns the step size (a plain number) before resetting: the constructed configuration must
+            # still come back
+            ctx.fault("assign_scale_before_reinitialize")
+            if ctx.sched.random() < 0.6:
+                with core.setup_stream(self.setup_seed + 3):
+                    inc.s.reinitialize()          # (reset, re-assign, reset again)
+            inc.s.scale = 0.37
+            if ctx.sched.random() < 0.5:
+                inc.s.sample(2)
+        pi = np.random.get_state()
         with core.setup_stream(self.setup_seed + 2):
             inc.s.reinitialize()
         inc.s.sample(n)
@@ -550,7 +561,7 @@ def gen_exp_case(r, tier):
         if r.random() < 0.3:
             ops.append({"op": "benign", "what": r.choice(["repr", "get_state", "set_state_roundtrip", "set_history_roundtrip",
                                                           "get_history", "get_samples", "save_other"])})
-    if r.random() < 0.25:
+    if r.random() < (0.6 if isinstance(sc["knobs"].get("scale"), list) else 0.3):
         ops.append({"op": "reinit_check", "n": r.randint(1, 5)})
     return {"scenario": sc, "ops": ops}
 
